@@ -80,10 +80,14 @@ def tally(pred):
                 blind += 1
     return f'{blind + after + nodet} kept changes — {blind} reported blind, {after} reported only after a rule was added or repaired, {nodet} not detected by the property they were written for.'
 def rnd(name):
-    return 2 if re.search(r'_[3-9]$', name) else 1
+    if re.search(r'_[5-9]$', name):
+        return 3
+    return 2 if re.search(r'_[34]$', name) else 1
 out.append('Tally, all rounds: ' + tally(lambda n: True) + '\n')
 out.append('Tally, round 1 (`_1`, `_2`: the obvious sites): ' + tally(lambda n: rnd(n) == 1) + '\n')
 out.append('Tally, round 2 (`_3`, `_4`: "less obvious sites", all run blind first): ' + tally(lambda n: rnd(n) == 2) + '\n')
+if any(rnd(n) == 3 for pid in seeds for n, _ in seeds[pid]):
+    out.append('Tally, round 3 (`_5`, `_6`: a third pair for the properties whose round-2 pair was missed entirely, all run blind first): ' + tally(lambda n: rnd(n) == 3) + '\n')
 
 txt = '\n'.join(out)
 p = f'{V}/DESIGN.md'
